@@ -311,6 +311,24 @@ func (g *gen) special(kind int) command {
 	return c
 }
 
+// longLine: a command that is rejected before its end of line, followed on the SAME line by n bytes of
+// command-like text. Everything up to the CRLF belongs to this command.
+var longSizes = []int{200, 3000, 4000, 4090, 4096, 4100, 5000, 8192, 9000, 70000}
+
+func (g *gen) longLine(n, variant int) command {
+	c := command{tag: g.tag()}
+	var b bytes.Buffer
+	for b.Len() < n {
+		g.nMarker++
+		fmt.Fprintf(&b, "MK%d CREATE MARKER%d ", g.nMarker, g.nMarker)
+	}
+	pad := b.String()[:n]
+	pre := []string{"NOOP ", "FROBNICATE ", "LOGIN a b ", "STATUS box (MESSAGES) ", "CREATE \"a\" ", "SELECT (", "UID ", "SEARCH BOGUSKEY "}[variant%8]
+	c.pieces = []piece{{data: []byte(c.tag + " " + pre + pad + "\r\n")}}
+	c.desc = fmt.Sprintf("rejected command %q followed by %d bytes on the same line", strings.TrimSpace(pre), n)
+	return c
+}
+
 func plain(tag, text string) command {
 	return command{tag: tag, desc: text, pieces: []piece{{data: []byte(tag + " " + text + "\r\n")}}}
 }
@@ -797,6 +815,19 @@ func body(w *hx.W) {
 					}
 					d := &dialogue{caps: cn, class: fmt.Sprintf("%s/special%d", state, k)}
 					d.cmds = append(prefix(state), g.special(k))
+					d.cmds = append(d.cmds, plain(g.tag(), "NOOP"))
+					emit(d)
+				}
+			}
+			// over-long lines of rejected commands
+			for si, n := range longSizes {
+				for v := 0; v < 8; v++ {
+					if w.Quick() && (si+v+rep)%2 == 1 {
+						continue
+					}
+					state := []string{"auth", "selected", "auth", "notauth"}[(v+si)%4]
+					d := &dialogue{caps: cn, class: fmt.Sprintf("%s/long-line/%d/v%d", state, n, v)}
+					d.cmds = append(prefix(state), g.longLine(n, v))
 					d.cmds = append(d.cmds, plain(g.tag(), "NOOP"))
 					emit(d)
 				}
